@@ -639,4 +639,21 @@ theorem roundtrip_core (hhead : saveHead W ctx = .ok (rec, TL)) (hrt : RoundTrip
 
 end core
 
+theorem lookup_select (l : List (Name × Val)) (m : Name) :
+    ∀ ms : List Name, lookup m (select ms l) = if m ∈ ms then lookup m l else none := by
+  intro ms
+  induction ms with
+  | nil => simp [select]
+  | cons a ms ih =>
+    simp only [select]
+    by_cases ham : a = m
+    · subst ham
+      cases h : lookup a l with
+      | none => simp [ih, h]
+      | some v => simp [lookup_cons]
+    · have hne : m ≠ a := fun h => ham h.symm
+      cases h : lookup a l with
+      | none => simp [ih, hne]
+      | some v => simp [lookup_cons, ham, ih, hne]
+
 end Sav
